@@ -1,3 +1,104 @@
-/-! # C12 — property theorems (stub: not built yet) -/
+import PymtlVerif.Proofs.Flat
+import PymtlVerif.Proofs.SV
+import PymtlVerif.Proofs.SVStmt
+import PymtlVerif.Proofs.SVMod
+/-!
+# C12 — the Yosys-compatible translation is equivalent, with a faithful flat port map
+
+Models: `Model/Flat.lean` (`flatPorts`, `mangle`, `portLeaves`: the flattened ports of
+`YosysStructuralTranslatorL1/L2` with the slice `[msb:lsb]` each leaf occupies in the packed vector; `toBits`: the
+packed value of a port as `bitstruct.to_bits()` lays it out — first field most significant, element 0 of a list
+field least significant) and the SystemVerilog / RTLIR models of C03 (the plain-Verilog subset is a sub-language).
+
+Side conditions of the port-map theorems: `Pos T` (every vector width positive), `Distinct T` (field names of a
+struct pairwise distinct — Python guarantees it), `WFNames T` / `GoodName` (a field name contains no `__`, does not
+end with `_`, does not start with a digit: the identifier well-formedness of C13; the examples in Proofs/Flat.lean
+show that each condition is necessary).
+
+The expression / statement theorems are those of C03 instantiated at the Yosys backend: constants are inlined as
+literals, `BitsN(e)` is emitted as the operand itself / a zero-extension, loop variables are
+`integer __loopvar__<blk>_<i>`; struct member access by flattened name (`a.b` → `a__b`) is outside `WT` for this
+backend (covered by the correspondence).
+-/
 namespace PV.C12
+open PV.SV PV.VTr PV.SVProofs PV.Flat PV.Sched
+
+/-- **Each flattened leaf is the slice `[msb:lsb]` of the packed value of the port**, as wide as the leaf's
+    vector type. -/
+theorem flat_is_slice {T : PTy} {v : Val} (h : HasTy v T) (hp : Pos T) (hd : Distinct T)
+    {l : Leaf} (hl : l ∈ flatPorts T) :
+    ∃ T' v', leafAt T v l.path = some (T', v') ∧
+      toBits T v / 2 ^ l.lsb % 2 ^ (l.msb + 1 - l.lsb) = toBits T' v' ∧
+      l.msb + 1 - l.lsb = T'.width ∧ HasTy v' T' ∧ ∃ w, T' = .vec w :=
+  Flat.flat_is_slice h hp hd hl
+
+/-- **The leaves partition the packed vector**: every range lies inside `[0, width)`, the ranges are pairwise
+    disjoint, and every bit position belongs to exactly one leaf. -/
+theorem flat_partition (T : PTy) (hp : Pos T) :
+    (∀ l ∈ flatPorts T, l.lsb ≤ l.msb ∧ l.msb < T.width) ∧
+    (flatPorts T).Pairwise (fun a c => a.msb < c.lsb ∨ c.msb < a.lsb) ∧
+    (∀ b, b < T.width → ∃ i, ∃ hi : i < (flatPorts T).length,
+      ((flatPorts T)[i].lsb ≤ b ∧ b ≤ (flatPorts T)[i].msb) ∧
+      ∀ j (hj : j < (flatPorts T).length),
+        ((flatPorts T)[j].lsb ≤ b ∧ b ≤ (flatPorts T)[j].msb) → j = i) :=
+  Flat.flat_partition T hp
+
+/-- **Distinct leaves get distinct mangled names** (`base__field__3…`), at the level of the emitted strings. -/
+theorem flat_names_injective (T : PTy) (hw : WFNames T) (base : String) {l₁ l₂ : Leaf}
+    (h₁ : l₁ ∈ flatPorts T) (h₂ : l₂ ∈ flatPorts T)
+    (e : mangle base l₁.path = mangle base l₂.path) : l₁ = l₂ :=
+  Flat.flat_names_injective T hw base h₁ h₂ e
+
+/-- the same for the port names the check drives / observes (a port, an element of a list of ports, a member of
+    an interface …) -/
+theorem port_names_injective (T : PTy) (hw : WFNames T) (t : Tok) (rest : List Tok) (hr : GoodPath rest)
+    (dims : List Nat) {q₁ q₂ : PortLeaf}
+    (h₁ : q₁ ∈ portLeaves true (t :: rest) dims T) (h₂ : q₂ ∈ portLeaves true (t :: rest) dims T)
+    (e : q₁.svName = q₂.svName) : q₁ = q₂ :=
+  Flat.portLeaves_names_injective T hw t rest hr dims h₁ h₂ e
+
+/-- the packed value fits the width of the type -/
+theorem to_bits_lt {T : PTy} {v : Val} (h : HasTy v T) : toBits T v < 2 ^ T.width :=
+  Flat.toBits_lt _ _ h
+
+/-- **Expressions, Yosys backend** (C03's theorem restricted to the plain-Verilog forms) -/
+theorem expr_correct_yosys (cb : Bool) (Γ : Env) (C : List (String × Nat)) (σ : Store)
+    (hC : HoldsC σ C) {e : RExpr} (hwt : WT .yosys Γ C e) {v : Nat} (hv : evalPy .yosys Γ σ e = some v) :
+    eval cb Γ σ e.width (tr .yosys e) = v ∧ selfWidth Γ (tr .yosys e) = e.width ∧ v < 2 ^ e.width :=
+  SVProofs.expr_correct .yosys cb Γ C σ hC hwt hv
+
+/-- **Loop-free statements, Yosys backend** -/
+theorem stmt_correct_yosys (cb : Bool) (Γ : Env) (C : List (String × Nat)) {s : RStmt}
+    (hwt : WTs .yosys Γ C s) {xs xs' : XS} (h : execPy .yosys Γ s xs = some xs') (hC : HoldsC xs.σ C) :
+    exec cb Γ (trStmt .yosys s) xs = xs' ∧ HoldsC xs'.σ C :=
+  SVProofs.stmt_correct .yosys cb Γ C hwt h hC
+
+/-- **Single driver** (as C03) -/
+theorem singleDriver_sound (ws : List (List WR)) (h : singleDriver ws = true) (x : String) (e b : Nat) :
+    (drivers ws x e b).length ≤ 1 :=
+  SV.singleDriver_sound ws h x e b
+
+/-- **Design level** (as C03): unique fixed point of single-writer, acyclic combinational processes -/
+theorem design_fixpoint_unique {Var Val : Type} {vw : XS → St Var Val} {castB : Bool} {Γ : Env}
+    {ps : List Proc} {bs : List (Blk Var Val)} (hrep : Represents vw castB Γ ps bs) (hwf : ∀ b ∈ bs, b.Wf)
+    (hsw : SingleWriter bs) (htopo : Topo bs) (s t : XS)
+    (hin : ∀ k, (∀ b ∈ bs, ¬ b.W k) → vw t k = vw s k)
+    (ht : ∀ p ∈ ps, vw (exec castB Γ p.body t) = vw t) :
+    vw t = vw (runProcs castB Γ ps s) :=
+  SV.design_fixpoint_unique hrep hwf hsw htopo s t hin ht
+
+/-! ### non-vacuity: the port `p : Pt { a: Bits4; b: [Bits2]*3; c: Inner { x: Bits3; y: Bits5 } }` -/
+
+/-- what the real Yosys pass emits for it -/
+example : (flatPorts Flat.exPt).map (fun l => (mangle "p" l.path, l.msb, l.lsb)) =
+    [("p__a", 17, 14), ("p__b__0", 9, 8), ("p__b__1", 11, 10), ("p__b__2", 13, 12),
+     ("p__c__x", 7, 5), ("p__c__y", 4, 0)] := by decide
+
+/-- `to_bits()` of `AB(a=0xA, b=[1,2,3])` is `0x2b9`: element 0 of the list field is least significant -/
+example : toBits Flat.exAB (.struct [.bits 0xA, .arr [.bits 1, .bits 2, .bits 3]]) = 0x2b9 := by decide
+
+example : (portLeaves true [.fld "ifc", .idx 1, .fld "msg"] [2] Flat.exPt).map (·.svName) =
+    ["ifc__1__msg__a", "ifc__1__msg__b__0", "ifc__1__msg__b__1", "ifc__1__msg__b__2",
+     "ifc__1__msg__c__x", "ifc__1__msg__c__y"] := by decide
+
 end PV.C12
